@@ -333,33 +333,68 @@ func runLRUCase(cs lruCase) (viol *lib.Violation, obs string, final string) {
 	return nil, obs, r.m.canon()
 }
 
+// lruDefaultCapScenario: fill-and-overflow for capacities beyond the sequence explorer's 1..3: the non-positive
+// ones (replaced by the default 100) and explicit larger ones. cap+extra distinct puts must leave exactly cap
+// entries, count exactly extra evictions and discard exactly the entries used longest ago.
 func lruDefaultCapScenario(c *lib.Ctx, capArg int) {
 	vtime.Enable()
 	defer vtime.Disable()
+	wantCap := capArg
+	if capArg <= 0 {
+		wantCap = 100
+	}
 	for _, refresh := range []bool{false, true} {
-		lc := cache.NewLRUCache(capArg, 0)
-		c.Rep.Evaluations++
-		if lc.Capacity() != 100 {
-			c.Violate(lib.Violation{Key: "lru-default-capacity", What: fmt.Sprintf("NewLRUCache(%d) capacity %d, want default 100", capArg, lc.Capacity()),
-				Case: map[string]any{"scenario": "default-capacity", "cap": capArg}})
-			return
-		}
-		for i := 0; i <= 100; i++ {
-			if refresh && i == 50 {
-				lc.Get("k0")
+		for _, extra := range []int{1, 2, 3} {
+			lc := cache.NewLRUCache(capArg, 0)
+			c.Rep.Evaluations++
+			c.Count("overflow_scenarios", 1)
+			if lc.Capacity() != wantCap {
+				c.Violate(lib.Violation{Key: "lru-default-capacity", What: fmt.Sprintf("NewLRUCache(%d) capacity %d, want %d", capArg, lc.Capacity(), wantCap),
+					Case: map[string]any{"scenario": "default-capacity", "cap": capArg}})
+				return
 			}
-			lc.Put(fmt.Sprintf("k%d", i), i)
-		}
-		st := lc.Stats()
-		_, has0 := lc.Get("k0")
-		_, has1 := lc.Get("k1")
-		want0, want1 := false, true
-		if refresh {
-			want0, want1 = true, false
-		}
-		if st.Size != 100 || st.Evictions != 1 || has0 != want0 || has1 != want1 {
-			c.Violate(lib.Violation{Key: "lru-default-capacity", What: fmt.Sprintf("cap arg %d refresh=%v: after 101 distinct puts size=%d evictions=%d has(k0)=%v has(k1)=%v", capArg, refresh, st.Size, st.Evictions, has0, has1),
-				Case: map[string]any{"scenario": "default-capacity", "cap": capArg, "refresh": refresh}})
+			n := wantCap + extra
+			var order []string // reference: keys from least to most recently used
+			gone := map[string]bool{}
+			touch := func(k string, isPut bool) {
+				for i, o := range order {
+					if o == k {
+						order = append(append(order[:i:i], order[i+1:]...), k)
+						return
+					}
+				}
+				if isPut {
+					order = append(order, k)
+					if len(order) > wantCap {
+						gone[order[0]] = true
+						order = order[1:]
+					}
+				}
+			}
+			for i := 0; i < n; i++ {
+				if refresh && i == wantCap/2 {
+					lc.Get("k0")
+					touch("k0", false)
+				}
+				k := fmt.Sprintf("k%d", i)
+				lc.Put(k, i)
+				touch(k, true)
+			}
+			st := lc.Stats()
+			bad := ""
+			if st.Size != wantCap || st.Evictions != int64(extra) || lc.Size() != wantCap {
+				bad = fmt.Sprintf("size=%d evictions=%d, want %d and %d", st.Size, st.Evictions, wantCap, extra)
+			}
+			for i := 0; i < n && bad == ""; i++ {
+				k := fmt.Sprintf("k%d", i)
+				if _, has := lc.Get(k); has == gone[k] {
+					bad = fmt.Sprintf("has(%s)=%v, want %v", k, has, !gone[k])
+				}
+			}
+			if bad != "" {
+				c.Violate(lib.Violation{Key: "lru-default-capacity", What: fmt.Sprintf("cap arg %d refresh=%v: after %d distinct puts: %s", capArg, refresh, n, bad),
+					Case: map[string]any{"scenario": "default-capacity", "cap": capArg, "refresh": refresh, "extra": extra}})
+			}
 		}
 	}
 }
@@ -386,8 +421,9 @@ func c12Run(c *lib.Ctx) {
 		}
 	}
 	if c.Shard == 0 {
-		lruDefaultCapScenario(c, 0)
-		lruDefaultCapScenario(c, -1)
+		for _, capArg := range []int{0, -1, 4, 64, 127, 128, 129, 256, 1000, 1024} {
+			lruDefaultCapScenario(c, capArg)
+		}
 	}
 	selfChecked := 0
 	seenFinal := map[string]bool{}
@@ -500,7 +536,7 @@ func lruGraph(c *lib.Ctx) {
 func init() {
 	lib.Register(&lib.Check{
 		ID: "C12", Level: "model_checking", Graph: true,
-		Rule:      "sequence mode: every operation sequence of length d (quick 5, 6 for capacity 2; thorough 6/7) over {Get,Put(v1|v2),Delete}x{a,b,c}+Clear+CleanupExpired+2 clock advances, per (capacity 1..3) x (ttl 0,10,1e6 ticks), executed on a fresh real LRUCache under the virtual clock with Size/Capacity/Stats/Keys compared with the reference model after every step; evaluations = sequences executed; distinct_nontrivial = distinct canonical final model states reached (measured per worker, summed); graph mode: BFS to a fixed point over canonical model states (8 configurations), states/transitions counted, every transition executed on the implementation (traces_validated_against_impl); plus the default-capacity scenario (101 distinct puts) for capacity 0 and -1",
+		Rule:      "sequence mode: every operation sequence of length d (quick 5, 6 for capacity 2; thorough 6/7) over {Get,Put(v1|v2),Delete}x{a,b,c}+Clear+CleanupExpired+2 clock advances, per (capacity 1..3) x (ttl 0,10,1e6 ticks), executed on a fresh real LRUCache under the virtual clock with Size/Capacity/Stats/Keys compared with the reference model after every step; evaluations = sequences executed; distinct_nontrivial = distinct canonical final model states reached (measured per worker, summed); graph mode: BFS to a fixed point over canonical model states (8 configurations), states/transitions counted, every transition executed on the implementation (traces_validated_against_impl); plus the fill-and-overflow scenario (capacity+1..3 distinct puts, with and without a refreshing read: exact size, eviction count and victims) for capacity arguments 0 and -1 (replaced by the default 100), 4, 64, 127, 128, 129, 256, 1000 (the search cache's) and 1024",
 		Assume:    []string{"clock owned through vtime (time.Now/Since rewritten by vinstr)", "map iteration order pinned (sorted) by vmap", "AccessedAt/AccessCount are write-only fields"},
 		QuickSecs: 240, ThorSecs: 1500,
 		Run: c12Run,
